@@ -42,7 +42,11 @@ FAIL_CONDS = ['yes', 'true', 'Y', '1/0', 'undefined_name', 'd[1]', "boom('true')
               'x.nope', 'x >', ')(', "d['y']", "boom('false')", 'int(s)']
 AGENT_ONLY = ['uuid', 'deep', 'time_ns', 'FrameCollector', 'LocationAction', 'TriggerContext', 'VariableCacheProvider']
 WATCHES = ['x', 'G', 'y', 'helper', 'G + 1', 'GLIST', 'helper(x)', 'len(s)', 'x + G', 's', 'flag', '1/0', 'nope', 'x +', 'd[1]',
-           'boom_base()', "boom('w')", 'x.nope'] + AGENT_ONLY
+           'boom_base()', "boom('w')", 'x.nope',
+           # the two namespaces themselves: what is local and what is global at that line
+           'sorted(locals())', 'len(locals())', "globals()['G']", "'G' in locals()", "'x' in globals()", 'sorted(dir())',
+           # expression text as a user types it: blanks around it are not part of the expression
+           ' x', '\tx + G', 'G ', '  helper(x)  '] + AGENT_ONLY
 
 
 def host_eval(expr, frame):
@@ -79,6 +83,10 @@ class C10(Prop):
             lambda t: '(%s) %s (%s)' % t), boolean.map(lambda b: 'not (%s)' % b))
         cond = st.one_of(grammar, grammar, st.sampled_from(BOOL_CONDS), st.sampled_from(FAIL_CONDS),
                          st.sampled_from(BLANK_CONDS), st.none())
+        # blanks before / after the expression text (as typed into a form)
+        padded = st.tuples(st.sampled_from([' ', '\t', '  ']), st.one_of(grammar, st.sampled_from(BOOL_CONDS)),
+                           st.sampled_from(['', ' '])).map(lambda t: t[0] + t[1] + t[2])
+        cond = st.one_of(cond, cond, cond, cond, cond, padded)
         hit = fd({'x': st.integers(0, 8), 'flag': st.booleans(), 'y': st.booleans(),
                                      't': st.booleans(), 'shadow': st.sampled_from([None, None, 99, 3]),
                                      's': st.sampled_from(['', 'abc', 'zzzz', '12']),
@@ -138,6 +146,10 @@ class C10(Prop):
         rejected_seen = False
         if cond in FAIL_CONDS:
             out.cls('failing_condition')
+        if cond and cond.strip() and cond != cond.strip() or any(w != w.strip() for w in watches):
+            out.cls('blank_padded_expression')
+        if any('locals()' in w or 'globals()' in w or 'dir()' in w for w in watches):
+            out.cls('namespace_watch')
         if any(w in ('G', 'GLIST', 'x + G', 'helper(x)') for w in watches) or kind in ('log', 'metric'):
             out.cls('host_global_watch')
         if any(w in AGENT_ONLY for w in watches):
